@@ -1,22 +1,27 @@
 #!/usr/bin/env python3
-"""tools/import_seed.py Cxx  - copy a sub-agent's deliverables from /tmp/seed/Cxx-out into /verif/seeded/CxxA, CxxB"""
+"""tools/import_seed.py Cxx [srcbase] [letters-in] [letters-out]
+Copy a sub-agent's deliverables (X.diff, demo_X.py, meta_X.json) from <srcbase>/Cxx-out into /verif/seeded/Cxx<letter>."""
 import json, os, shutil, sys
 pid = sys.argv[1]
-src = "/tmp/seed/%s-out" % pid
-for v in "AB":
-    if not os.path.exists(os.path.join(src, "%s.diff" % v)):
+base = sys.argv[2] if len(sys.argv) > 2 else "/tmp/seed"
+lin = sys.argv[3] if len(sys.argv) > 3 else "AB"
+lout = sys.argv[4] if len(sys.argv) > 4 else lin
+src = "%s/%s-out" % (base, pid)
+for v, w in zip(lin, lout):
+    if not (os.path.exists(os.path.join(src, "%s.diff" % v)) and os.path.exists(os.path.join(src, "demo_%s.py" % v))):
+        print("missing", pid, v)
         continue
-    dst = "/verif/seeded/%s%s" % (pid, v)
+    dst = "/verif/seeded/%s%s" % (pid, w)
     os.makedirs(dst, exist_ok=True)
     shutil.copy(os.path.join(src, "%s.diff" % v), os.path.join(dst, "patch.diff"))
     shutil.copy(os.path.join(src, "demo_%s.py" % v), os.path.join(dst, "demo.py"))
-    meta = json.load(open(os.path.join(src, "meta_%s.json" % v)))
+    try:
+        meta = json.load(open(os.path.join(src, "meta_%s.json" % v)))
+    except Exception:
+        meta = {}
     meta["property"] = pid
-    meta["written_by"] = "independent sub-agent given only the property text and a scratch worktree"
+    meta["written_by"] = "independent sub-agent given only the property text and a scratch worktree (%s)" % base
     json.dump(meta, open(os.path.join(dst, "meta.json"), "w"), indent=1)
-    for extra in os.listdir(src):
-        if extra.startswith("stub") or extra in ("rpy2", "stubs"):
-            p = os.path.join(src, extra)
-            if os.path.isdir(p):
-                shutil.copytree(p, os.path.join(dst, "stubs") if extra in ("stubs",) else os.path.join(dst, "stubs", extra), dirs_exist_ok=True)
+    if os.path.isdir(os.path.join(src, "stubs")):
+        shutil.copytree(os.path.join(src, "stubs"), os.path.join(dst, "stubs"), dirs_exist_ok=True)
     print("imported", dst)
